@@ -384,6 +384,34 @@ def caseProg (eS gtS gasS codeS dataS : String) (go : String) : String :=
   | some e, some gtn, some gas, some code, some data => judgeRun (harnessEnv code data []) e gtn (startMachine gas) go
   | _, _, _, _, _ => "bad-op\tagree"
 
+/-- `rdc <returndata> <memLen> <memOff> <dataOff> <len>`: RETURNDATACOPY on a zero memory with a non-empty buffer -/
+def caseRdc (retS memLenS moS doS lenS : String) (go : String) : String :=
+  match bytesOfHex retS, memLenS.toNat?, hexNat moS, hexNat doS, hexNat lenS with
+  | some ret, some memLen, some mo, some dof, some len =>
+    let env := harnessEnv [] [] ret
+    let m : Machine := { pc := 0, stack := [Int.ofNat mo, Int.ofNat dof, Int.ofNat len], mem := List.replicate memLen 0, last := 0, gas := 0 }
+    match specLookup 3 0x3e with
+    | none => "bad-op\tagree"
+    | some en =>
+      let render : Step → String
+        | .cont _ m2 => "ok " ++ hexOrDash m2.mem
+        | .fail .rdoob => "oob"
+        | .fail f => "fail " ++ f.name
+        | .skip => "skip"
+      let impl := render (implExec env Aqv.Keccak.keccak256 en 0x3e m)
+      let spec := render (specExec env Aqv.Keccak.keccak256 en 0x3e m)
+      judge impl go (go == spec) (if impl == go then "unexpected-modelled-deviation" else "returndatacopy-differs-from-spec")
+  | _, _, _, _, _ => "bad-op\tagree"
+
+/-- `gdb <data> <start> <size>`: getDataBig directly -/
+def caseGdb (dataS startS sizeS : String) (go : String) : String :=
+  match bytesOfHex dataS, hexNat startS, hexNat sizeS with
+  | some data, some start, some size =>
+    let impl := hexOrDash (getDataBig data start size)
+    let spec := hexOrDash (specRead data start size)
+    judge impl go (go == spec) (if impl == go then "unexpected-modelled-deviation" else "getDataBig-differs-from-spec")
+  | _, _, _ => "bad-op\tagree"
+
 def handle (l : String) : String :=
   let (inp, go) := splitCase l
   match fields inp with
@@ -399,6 +427,8 @@ def handle (l : String) : String :=
   | ["ws", a] => caseWs a go
   | ["ms", a, b] => caseMs a b go
   | ["prog", e, gt, gas, code, data] => caseProg e gt gas code data go
+  | ["rdc", r, ml, mo, d, n] => caseRdc r ml mo d n go
+  | ["gdb", d, st, sz] => caseGdb d st sz go
   | _ => "bad-op\tagree"
 
 def main : IO Unit := runLines handle
